@@ -43,6 +43,14 @@ CumW(c) == FoldLeft(LAMBDA a, x : Append(a, (IF a = <<>> THEN 0 ELSE a[Len(a)]) 
 MinSeq(vs) == FoldLeft(LAMBDA a, x : Min2(a, x), vs[1], vs)
 MaxSeq(vs) == FoldLeft(LAMBDA a, x : Max2(a, x), vs[1], vs)
 
+\* counts beyond TLC's 32-bit integers (total weight >= 2^32 is reachable by merge doublings) are pairs <<lo, hi>> of limbs,
+\* value = lo + hi * 2^24
+WB == 16777216
+WNorm(lo, hi) == <<lo % WB, hi + lo \div WB>>
+WAdd(a, b) == WNorm(a[1] + b[1], a[2] + b[2])
+WOfInt(n) == WNorm(n, 0)
+WSum(ws) == FoldLeft(LAMBDA acc, w : WAdd(acc, w), <<0, 0>>, ws)
+
 Fresh(k, cap) == [k |-> k, cap |-> cap, cent |-> <<>>, buf |-> <<>>, minD |-> 0, maxD |-> 0, total |-> 0,
                   g |-> [cnt |-> 0, lo |-> 0, hi |-> 0], inf |-> FALSE]
 
